@@ -15,6 +15,7 @@ from liquid2.builtin import parse_primitive
 from liquid2.builtin import parse_string_or_identifier
 from liquid2.exceptions import LiquidSyntaxError
 from liquid2.stringify import to_liquid_string
+from liquid2.unescape import quote_identifier
 
 if TYPE_CHECKING:
     from liquid2 import RenderContext
@@ -38,7 +39,7 @@ class CycleNode(Node):
 
     def __str__(self) -> str:
         assert isinstance(self.token, TagToken)
-        name = f"{self.name}: " if self.name else ""
+        name = f"{quote_identifier(self.name)}: " if self.name is not None else ""
         items = ", ".join(str(i) for i in self.items)
         return f"{{%{self.token.wc[0]} cycle {name}{items} {self.token.wc[1]}%}}"
 
